@@ -473,15 +473,57 @@ pub fn message_relation(text: &str) -> Option<(Rel, String, bool)> {
         if let Some(p) = lower.find(phrase) {
             let rest = &text[p + phrase.len()..];
             let is_len = lower.contains("character") || lower.contains("length") || lower.contains("char");
-            let mut b = rest.trim().to_string();
-            for suffix in [" character(s).", " characters.", " character.", " chars.", "."] {
-                if let Some(x) = b.strip_suffix(suffix) {
-                    b = x.to_string();
+            // the bound is the numeric token that follows the phrase (as the inner type prints it)
+            let rest = rest.trim_start();
+            let mut end = 0usize;
+            let bytes: Vec<char> = rest.chars().collect();
+            let mut k = 0usize;
+            while k < bytes.len() {
+                let c = bytes[k];
+                let numeric = c.is_ascii_digit() || c == '-' || c == '+' || c == '_' || c == 'e' || c == 'E' || c == 'i' || c == 'n' || c == 'f' || c == 'N' || c == 'a';
+                // a '.' belongs to the number only when a digit follows ("12.5" yes, "12. Next" no)
+                let dot_in_number = c == '.' && k + 1 < bytes.len() && bytes[k + 1].is_ascii_digit() && !(k + 2 < bytes.len() && bytes[k + 1] == '.' );
+                if numeric || dot_in_number {
+                    k += 1;
+                    end = k;
+                } else {
                     break;
                 }
             }
+            let b: String = bytes[..end].iter().collect();
             return Some((rel, b.trim().to_string(), is_len));
         }
+    }
+    None
+}
+
+/// a Rust-style range statement in the text (`0..100`, `-5..=5`): (low, high, high inclusive)
+pub fn message_range(text: &str) -> Option<(i128, i128, bool)> {
+    let b: Vec<char> = text.chars().collect();
+    let mut i = 0usize;
+    while i + 1 < b.len() {
+        if b[i] == '.' && b[i + 1] == '.' {
+            // number to the left
+            let mut l = i;
+            while l > 0 && (b[l - 1].is_ascii_digit() || b[l - 1] == '-' || b[l - 1] == '_') {
+                l -= 1;
+            }
+            let left: String = b[l..i].iter().filter(|c| **c != '_').collect();
+            let mut r = i + 2;
+            let incl = r < b.len() && b[r] == '=';
+            if incl {
+                r += 1;
+            }
+            let mut e = r;
+            while e < b.len() && (b[e].is_ascii_digit() || (e == r && b[e] == '-') || b[e] == '_') {
+                e += 1;
+            }
+            let right: String = b[r..e].iter().filter(|c| **c != '_').collect();
+            if let (Ok(x), Ok(y)) = (left.parse::<i128>(), right.parse::<i128>()) {
+                return Some((x, y, incl));
+            }
+        }
+        i += 1;
     }
     None
 }
@@ -580,6 +622,36 @@ pub fn c16(cx: &Ctx) -> Report {
                     text.clone(),
                     &format!("wrong-text:{}:{}", d.family_name(), vd.kind_name()),
                 ));
+            }
+            // (2b) a range stated anywhere in the text (e.g. "Valid range: 0..100") is a second literal
+            // constraint: it must admit exactly the values the declaration's bound validators admit
+            if let (Some((rlo, rhi, incl)), Family::Int) = (message_range(text), d.family()) {
+                let mut lie: Option<(Val, bool, bool)> = None;
+                for raw in &dom {
+                    let sv = refsem::sanitize(d, raw);
+                    let x = match &sv {
+                        Val::I(x) => *x,
+                        Val::U(x) => match i128::try_from(*x) {
+                            Ok(y) => y,
+                            Err(_) => continue,
+                        },
+                        _ => continue,
+                    };
+                    let in_range = x >= rlo && (x < rhi || (incl && x == rhi));
+                    let bounds_ok = vs.iter().all(|o| o.bound().is_none() || !refsem::violated(d.inner, o, &sv));
+                    let others_ok = vs.iter().all(|o| o.bound().is_some() || !refsem::violated(d.inner, o, &sv));
+                    if !others_ok {
+                        continue;
+                    }
+                    let accepted = s.construct(raw).is_ok();
+                    r.evaluations += 1;
+                    if (in_range != bounds_ok || in_range != accepted) && lie.is_none() {
+                        lie = Some((raw.clone(), in_range, accepted));
+                    }
+                }
+                if let Some((raw, stated, accepted)) = lie {
+                    r.violate(mkviol("C16", i, d, "Display", raw.show(), format!("stated range {rlo}..{}{rhi} contains the value = {stated} must equal accepted = {accepted}", if incl { "=" } else { "" }), text.clone(), &format!("wrong-text:{}:{}:range", d.family_name(), vd.kind_name())));
+                }
             }
             // (3) the same text embedded by FromStr / serde
             if d.family() != Family::Str && d.derives(Tr::FromStr) {
@@ -898,6 +970,13 @@ pub fn c13(cx: &Ctx) -> Report {
                 r.hist("Display", 1);
                 if Some(txt.clone()) != display_of_val(&stored) {
                     r.violate(mkviol("C13", i, d, "Display", raw.show(), format!("{:?}", display_of_val(&stored)), format!("{txt:?}"), "display-differs"));
+                }
+            }
+            for (spec, got, want) in &w.display_fmt {
+                r.transitions += 1;
+                r.hist("Display with format options", 1);
+                if got != want {
+                    r.violate(mkviol("C13", i, d, &format!("Display {spec}"), raw.show(), format!("{want:?} (what the inner value prints)"), format!("{got:?}"), "display-ignores-format-options"));
                 }
             }
             if let Some(h) = &w.hash_t {
@@ -1416,3 +1495,27 @@ pub fn c04(cx: &Ctx) -> Report {
 
 // ------------------------------------------------------------------------------------------------
 // C09 / C14 / C12 live in explore2.rs
+
+#[cfg(test)]
+mod tests {
+    use super::*;
+    #[test]
+    fn lexicon() {
+        let cases = [
+            ("Nt5 is too big. The value must be less than 100.", Rel::Lt, "100", false),
+            ("X is too small. The value must be greater or equal to -12.5.", Rel::Ge, "-12.5", false),
+            ("X is too big. The value must be less or equal to 1e-300.", Rel::Le, "1e-300", false),
+            ("X is too long. The value length must be at most 3 character(s).", Rel::Le, "3", true),
+            ("X is too short. The value length must be at least 2 character(s).", Rel::Ge, "2", true),
+            ("X is too small. The value must be greater than 0. Valid range: 0..100.", Rel::Gt, "0", false),
+            ("X is too big. The value must be less than inf.", Rel::Lt, "inf", false),
+            ("X is too big. The value must be less or equal to 340282366920938463463374607431768211454.", Rel::Le, "340282366920938463463374607431768211454", false),
+        ];
+        for (t, r, b, l) in cases {
+            assert_eq!(message_relation(t), Some((r, b.to_string(), l)), "{t}");
+        }
+        assert_eq!(message_range("Valid range: 0..100."), Some((0, 100, false)));
+        assert_eq!(message_range("Valid range: -5..=5"), Some((-5, 5, true)));
+        assert_eq!(message_range("must be less than 12.5."), None);
+    }
+}
